@@ -32,7 +32,9 @@
 (***************************************************************************)
 EXTENDS Integers, Sequences, FiniteSets, TLC
 
-CONSTANTS Level        \* 1: quick domains, 2: thorough domains
+CONSTANTS Level,       \* 1: quick domains, 2: thorough domains
+          Repaired     \* which code the "real" mode transcribes: FALSE = the tree as first examined, TRUE = the tree after
+                       \* the repairs of the reading / writing defects (counts checked, failures propagated, ...)
 
 NA    == "NA"
 HASH  == "#"
@@ -185,7 +187,8 @@ UntilComment(q) == IF q = <<>> \/ IsComment(Head(q)) THEN <<>> ELSE <<Head(q)>> 
 \* expected ones: the in-place variant fills a larger buffer)
 RdVecRoom(L, md, s, f, kind, n, room) ==
   IF ~s.ok THEN s
-  ELSE IF n < 0 THEN FailAt(s, IF md = "real" THEN "allocNegative" ELSE "badCount", f)
+  ELSE IF n < 0 THEN FailAt(s, IF md = "real" /\ ~Repaired THEN "allocNegative" ELSE "badCount", f)
+  ELSE IF n = 0 /\ Repaired THEN Put(s, f, <<>>)                      \* repaired: nothing to be read, nothing consumed
   ELSE LET ln   == FindLine(L, s.i, s.j)
            vals == UntilComment(ln.rest)
            cnt  == Len(vals)
@@ -194,7 +197,7 @@ RdVecRoom(L, md, s, f, kind, n, room) ==
            vec  == [k \in DOMAIN vals |-> IF WordOK(kind, vals[k]) THEN WordVal(kind, vals[k]) ELSE DefaultOf(kind)]
        IN IF md = "real"
           THEN IF cnt = n THEN Put(IF bad THEN Ev(s1, "wordAsZero") ELSE s1, f, vec)
-               ELSE IF cnt > n /\ room = 0 THEN FailAt(Ev(s1, "vecOverflow"), "badVecCount", f)
+               ELSE IF cnt > n /\ room = 0 /\ ~Repaired THEN FailAt(Ev(s1, "vecOverflow"), "badVecCount", f)
                ELSE FailAt(s1, "badVecCount", f)
           ELSE IF n = 0 THEN Put(s, f, <<>>)
                ELSE IF cnt = n /\ ~bad THEN Put(s1, f, vec) ELSE FailAt(s1, "badVecCount", f)
@@ -211,6 +214,9 @@ Alloc(L, md, s, n) ==
   ELSE IF n > RemainingTokens(L, s) + 1
        THEN IF md = "real" THEN (IF n > 100000 THEN Fail(s, "allocHuge") ELSE Ev(s, "allocUnbounded")) ELSE Fail(s, "badCount")
   ELSE s
+\* repaired code: a check "the count may not be negative / must be positive" placed before its use
+ChkRep(md, s, cond) == IF s.ok /\ md = "real" /\ Repaired /\ ~cond THEN Fail(s, "badCount") ELSE s
+
 \* product of counts without leaving the 32-bit integers of TLC
 BigCount(a, b) == IF a < 0 \/ b < 0 THEN -1 ELSE IF a > 40000 \/ b > 40000 THEN IMAX ELSE a * b
 
@@ -239,7 +245,8 @@ LocIdentify(t) ==
   ELSE LET cs == LocChars[t]
            M  == {k \in DOMAIN SREF : IsPrefixSeq(SREF[k], cs)}
        IN IF M = {} THEN [err |-> FALSE, type |-> 0, idx |-> 0]
-          ELSE LET k    == CHOOSE m \in M : \A m2 \in M : m <= m2       \* first match in table order
+          ELSE LET k    == IF Repaired THEN CHOOSE m \in M : \A m2 \in M : Len(SREF[m]) >= Len(SREF[m2])   \* longest name
+                           ELSE CHOOSE m \in M : \A m2 \in M : m <= m2                            \* first match in table order
                    inum == AtoI(SubSeq(cs, Len(SREF[k]) + 1, Len(cs)))
                IN IF k \in UniqueLoc /\ inum > 1 THEN [err |-> TRUE, type |-> 0, idx |-> 0]
                   ELSE [err |-> FALSE, type |-> k, idx |-> Max2(inum - 1, 0)]
@@ -270,18 +277,19 @@ R_DbPart(L, md, s0) ==
   IN IF ~s2.ok THEN s2 ELSE
   LET ncol == s2.o.ncol
       nech == s2.o.nech
-      sc   == IF md = "ideal" /\ (ncol < 0 \/ nech < 0) THEN Fail(s2, "badCount") ELSE s2
+      sc   == IF (md = "ideal" \/ Repaired) /\ (ncol < 0 \/ nech < 0) THEN Fail(s2, "badCount") ELSE s2
       s3   == IF ncol > 0 THEN RdVec(L, md, RdVec(L, md, sc, "locators", "s", ncol), "names", "s", ncol)
               ELSE Put(Put(sc, "locators", <<>>), "names", <<>>)
       \* "VectorDouble allvalues(nech * ncol)" is executed even when the Locators / Names lines could not be read
+      \* (repaired: the allocation is made only when they have been read)
       sa   == Alloc(L, md, [s3 EXCEPT !.ok = TRUE], BigCount(nech, ncol))
-      s4   == IF s3.ok THEN sa ELSE [sa EXCEPT !.ok = FALSE, !.at = s3.at]
+      s4   == IF s3.ok THEN sa ELSE IF Repaired THEN s3 ELSE [sa EXCEPT !.ok = FALSE, !.at = s3.at]
       s5   == R_DbRows(L, md, Put(LoopGuard(L, md, s4, nech), "rows", <<>>), 1, nech, ncol)
   IN IF ~s5.ok THEN s5 ELSE
      LET locs == s5.o.locators
          bad  == \E k \in DOMAIN locs : LocIdentify(locs[k]).err
      IN IF bad
-        THEN IF md = "real" THEN Ev(Put(Put(Put(Put(Put(s5, "ncol", 0), "nech", 0), "locators", <<>>), "names", <<>>), "rows", <<>>), "uninitReturn")
+        THEN IF md = "real" /\ ~Repaired THEN Ev(Put(Put(Put(Put(Put(s5, "ncol", 0), "nech", 0), "locators", <<>>), "names", <<>>), "rows", <<>>), "uninitReturn")
              ELSE Fail(s5, "badLocator")
         ELSE Put(Put(s5, "locators", [k \in DOMAIN locs |-> LocCanon(locs[k])]),
                  "names", [k \in DOMAIN s5.o.names |-> <<s5.o.names[k]>>])
@@ -328,7 +336,7 @@ R_Table(L, md, s0) ==
       s2 == RdI(L, md, s1, "nrows")
   IN IF ~s2.ok THEN ResFail(s2) ELSE
   LET n  == BigCount(s2.o.nrows, s2.o.ncols)
-      s3 == Alloc(L, md, IF md = "ideal" /\ (s2.o.nrows < 0 \/ s2.o.ncols < 0) THEN Fail(s2, "badCount") ELSE s2, n)
+      s3 == Alloc(L, md, IF (md = "ideal" \/ Repaired) /\ (s2.o.nrows < 0 \/ s2.o.ncols < 0) THEN Fail(s2, "badCount") ELSE s2, n)
       s4 == IF s3.ok /\ s2.o.nrows > 0 /\ s2.o.ncols > 0 THEN RdMany(L, md, s3, "vals", "d", n) ELSE Put(s3, "vals", <<>>)
   IN Res(s4, [ncols |-> s4.o.ncols, nrows |-> s4.o.nrows, vals |-> s4.o.vals])
 TableStructs == << [nrows |-> 0, ncols |-> 0], [nrows |-> 1, ncols |-> 1], [nrows |-> 1, ncols |-> 2], [nrows |-> 2, ncols |-> 1],
@@ -360,7 +368,7 @@ R_GridDims(L, md, s, d, ndim) ==
 R_DbGrid(L, md, s0) ==
   LET s1 == RdI(L, md, s0, "ndim")
       nd == Gd(s1, "ndim", 0)
-      s2 == Alloc(L, md, s1, nd)                                   \* nx.resize(ndim) ...
+      s2 == Alloc(L, md, ChkRep(md, s1, nd > 0), nd)                  \* nx.resize(ndim) ...
       s3 == R_GridDims(L, md, Put(Put(Put(Put(LoopGuard(L, md, s2, nd), "nx", <<>>), "x0", <<>>), "dx", <<>>), "angles", <<>>), 1, nd)
   IN IF ~s2.ok THEN ResFail(s2) ELSE
   LET ntot == IF \E d \in DOMAIN s3.o.nx : s3.o.nx[d] < 0 \/ s3.o.nx[d] > 40000 THEN -1 ELSE ProdSeq(s3.o.nx)
@@ -370,6 +378,14 @@ R_DbGrid(L, md, s0) ==
   IN IF md = "ideal"
      THEN IF db.ok /\ db.o.nech = ntot THEN Res(db, grid(db) @@ DbOf(db))
           ELSE ResFail(IF db.ok THEN FailAt(db, "gridSizeMismatch", "nech") ELSE db)
+     ELSE IF Repaired
+     THEN \* repaired: dimension > 0, grid accepted by Grid::resetFromVector (no negative count or mesh), result of the Db
+          \* part used, number of samples of the file = number of nodes of the grid
+          LET s5  == IF s3.ok /\ (nd <= 0 \/ (\E d \in DOMAIN s3.o.nx : s3.o.nx[d] < 0) \/ (\E d \in DOMAIN s3.o.dx : s3.o.dx[d] \in NegToks))
+                     THEN Fail(s3, "badCount") ELSE s3
+              db2 == R_DbPart(L, md, s5)
+          IN IF db2.ok /\ db2.o.nech = ntot THEN Res(db2, grid(db2) @@ DbOf(db2))
+             ELSE ResFail(IF db2.ok THEN FailAt(db2, "badCount", "nech") ELSE db2)
      ELSE \* the result of Db::_deserialize is dropped ("ret && Db::_deserialize(is, verbose);")
           IF ~s3.ok THEN ResFail(s3)
           ELSE IF db.ok
@@ -427,7 +443,7 @@ R_CovHead(L, md, s, ndim) ==
   LET g == IF f.o.rot # 0 THEN RdMany(L, md, Alloc(L, md, Put(f, "rotmat", <<>>), BigCount(ndim, ndim)), "rotmat", "d", ndim * ndim)
            ELSE Put(f, "rotmat", <<>>)
   IN IF ~g.ok THEN g
-     ELSE IF g.o.type \notin CovTypes THEN (IF md = "real" THEN Ev(g, "badEnum") ELSE Fail(g, "badEnum"))
+     ELSE IF g.o.type \notin CovTypes THEN (IF md = "real" /\ ~Repaired THEN Ev(g, "badEnum") ELSE Fail(g, "badEnum"))
      ELSE g
 
 RECURSIVE R_Covs(_, _, _, _, _, _)
@@ -465,7 +481,7 @@ R_Model(L, md, s0) ==
       nvar == s5.o.nvar
       sa == IF md = "ideal" /\ (ndim < 1 \/ nvar < 1 \/ ndim > 3 \/ s5.o.ncova < 0 \/ s5.o.nbfl < 0) THEN Fail(s5, "badCount") ELSE s5
       \* CovContext(nvar, ndim): a space of dimension < 1 or no variable is accepted by the real reader (the object is unusable)
-      sd == IF md = "real" /\ (ndim < 1 \/ nvar < 1) THEN Ev(sa, "badDims") ELSE sa
+      sd == IF md = "real" /\ (ndim < 1 \/ nvar < 1) THEN (IF Repaired THEN Fail(sa, "badCount") ELSE Ev(sa, "badDims")) ELSE sa
       sb == Alloc(L, md, Alloc(L, md, sd, BigCount(nvar, nvar)), ndim)
       s6 == R_Covs(L, md, Put(LoopGuard(L, md, sb, s5.o.ncova), "covs", <<>>), 1, IF sb.ok THEN s5.o.ncova ELSE 0, ndim)
       s7 == R_Drifts(L, md, Put(LoopGuard(L, md, s6, s5.o.nbfl), "drifts", <<>>), 1, IF s6.ok THEN s5.o.nbfl ELSE 0)
@@ -527,7 +543,7 @@ W_NeighUnique(o) == <<RecI(TRUE, o.ndim)>>
 R_ANeigh(L, md, s0) == LET s1 == RdI(L, md, s0, "ndim") IN
                        IF ~s1.ok THEN s1
                        ELSE IF md = "ideal" THEN (IF s1.o.ndim < 1 \/ s1.o.ndim > 3 THEN Fail(s1, "badCount") ELSE s1)
-                       ELSE IF s1.o.ndim < 1 THEN Ev(s1, "badDims")
+                       ELSE IF s1.o.ndim < 1 THEN (IF Repaired THEN Fail(s1, "badCount") ELSE Ev(s1, "badDims"))
                        ELSE IF s1.o.ndim > 100000 THEN Fail(s1, "allocHuge")
                        ELSE s1
 R_NeighUnique(L, md, s0) == LET s1 == R_ANeigh(L, md, s0) IN
@@ -547,7 +563,7 @@ R_NeighImage(L, md, s0) ==
       s2 == RdI(L, md, s1, "skip")
       s3 == RdMany(L, md, Put(s2, "radius", <<>>), "radius", "i", IF s2.ok THEN s2.o.ndim ELSE 0)
   IN \* createFromNF starts from "new NeighImage()": _imageRadius is empty and is indexed without being resized
-     IF md = "real" /\ s2.ok /\ s2.o.ndim > 0 THEN ResFail(FailAt(Ev(s3, "writeUnsized"), "crashPredicted", "radius")) ELSE
+     IF md = "real" /\ ~Repaired /\ s2.ok /\ s2.o.ndim > 0 THEN ResFail(FailAt(Ev(s3, "writeUnsized"), "crashPredicted", "radius")) ELSE
      Res(s3, [ndim |-> s3.o.ndim, skip |-> s3.o.skip, radius |-> s3.o.radius])
 
 \* products of anisotropy ratios by the radius (the real reader rescales the ratios)
@@ -592,8 +608,9 @@ R_NeighMoving(L, md, s0) ==
           [ok |-> TRUE, ev |-> j.ev, at |-> j.at,
            o |-> [ndim |-> ndim, sector |-> IF nsect > 1 THEN 1 ELSE 0, nmini |-> j.o.nmini, nmaxi |-> j.o.nmaxi, nsect |-> nsect, nsmax |-> j.o.nsmax,
                   radius |-> j.o.radius, aniso |-> IF an THEN 1 ELSE 0,
-                  coeffs |-> IF j.o.radius = NA THEN j.o.coeffs ELSE [k \in DOMAIN j.o.coeffs |-> Mul(j.o.coeffs[k], j.o.radius)],
-                  rot |-> 0, rotmat |-> <<>>]]
+                  \* (repaired: the ratios are kept as read, the rotation flag is set with the rotation matrix)
+                  coeffs |-> IF j.o.radius = NA \/ Repaired THEN j.o.coeffs ELSE [k \in DOMAIN j.o.coeffs |-> Mul(j.o.coeffs[k], j.o.radius)],
+                  rot |-> IF Repaired /\ an /\ ro THEN 1 ELSE 0, rotmat |-> IF Repaired /\ an /\ ro THEN j.o.rotmat ELSE <<>>]]
 
 NeighStructs == <<[ndim |-> 1], [ndim |-> 2], [ndim |-> 3]>>
 NeighMovingStructs == Flat([nd \in 1..3 |-> [k \in 1..(IF nd = 1 THEN 2 ELSE 3) |-> [ndim |-> nd, aniso |-> IF k >= 2 THEN 1 ELSE 0, rot |-> IF k = 3 THEN 1 ELSE 0]]])
@@ -623,7 +640,7 @@ W_Vario(o) ==
         \o <<Com(TRUE)>>
         \* "value = FFFF(getSwByIndex(idir, i)) ? 0. : getSwByIndex(idir, i)": undefined results are written as 0
         \o Flat([i \in 1..(Len(dr.vals) \div 3) |->
-                  Recs([k \in 1..3 |-> IF dr.vals[3 * i - 3 + k] = NA THEN "0" ELSE dr.vals[3 * i - 3 + k]]) \o <<Com(FALSE)>>])])
+                  Recs([k \in 1..3 |-> IF dr.vals[3 * i - 3 + k] = NA /\ ~Repaired THEN "0" ELSE dr.vals[3 * i - 3 + k]]) \o <<Com(FALSE)>>])])
 
 R_VarioDir(L, md, s, ndim, nvar, flagCalcul) ==
   LET a == RdI(L, md, s, "regular")
@@ -638,7 +655,7 @@ R_VarioDir(L, md, s, ndim, nvar, flagCalcul) ==
            ELSE RdVec(L, md, RdVec(L, md, Put(g, "tolang", "0"), "grincr", "i", ndim), "codir", "d", ndim)
   IN IF ~h.ok THEN h ELSE
   LET size == DirSize(h.o.npas, nvar)
-      i == IF md = "ideal" /\ h.o.npas < 0 THEN Fail(h, "badCount") ELSE h
+      i == IF (md = "ideal" \/ Repaired) /\ h.o.npas < 0 THEN Fail(h, "badCount") ELSE h
       j == IF flagCalcul # 0 THEN Alloc(L, md, i, IF size < 0 THEN (IF h.o.npas < 0 THEN -1 ELSE IMAX) ELSE 3 * size) ELSE i
       k == IF flagCalcul # 0 /\ j.ok THEN RdMany(L, md, Put(j, "vals", <<>>), "vals", "d", 3 * size) ELSE Put(j, "vals", <<>>)
   IN k
@@ -664,7 +681,8 @@ R_Vario(L, md, s0) ==
   LET ndim == s5.o.ndim
       nvar == s5.o.nvar
       fc   == s5.o.fc
-      sa == IF md = "ideal" /\ (ndim < 1 \/ ndim > 3 \/ nvar < 1 \/ s5.o.ndir < 0) THEN Fail(s5, "badCount") ELSE s5
+      sa == IF md = "ideal" /\ (ndim < 1 \/ ndim > 3 \/ nvar < 1 \/ s5.o.ndir < 0) THEN Fail(s5, "badCount")
+            ELSE ChkRep(md, s5, ndim >= 1 /\ nvar >= 0 /\ s5.o.ndir >= 0)
       sb == Alloc(L, md, sa, nvar)                                     \* _variableNames.resize(nvar)
       s6 == IF fc = 2 THEN RdMany(L, md, Put(sb, "names", <<>>), "names", "s", IF sb.ok THEN nvar ELSE 0)
             ELSE Put(sb, "names", Cst(IF sb.ok /\ nvar > 0 /\ nvar < 1000 THEN nvar ELSE 0, "Unknown"))
@@ -726,12 +744,12 @@ R_Points(L, md, s, k, n) ==
   ELSE IF ~s.ok THEN s
   ELSE LET r == RdVec(L, md, s, "vec", "d", 2) IN
        IF r.ok THEN R_Points(L, md, Put(r, "xy", Append(s.o.xy, r.o.vec)), k + 1, n)
-       ELSE IF md = "real" THEN Ev(r, "useAfterClear") ELSE r      \* _x[i] = buffer[0] after buffer.clear()
+       ELSE IF md = "real" /\ ~Repaired THEN Ev(r, "useAfterClear") ELSE r      \* _x[i] = buffer[0] after buffer.clear()
 R_PolyLine(L, md, s0) ==
   LET s1 == RdI(L, md, s0, "np") IN
   IF ~s1.ok THEN s1
   ELSE IF s1.o.np < 0 THEN Fail(s1, "badCount")
-  ELSE IF s1.o.np = 0 THEN (IF md = "real" THEN Put(Ev(s1, "emptyPolyline"), "xy", <<>>) ELSE Fail(s1, "badCount"))   \* cannot be written again
+  ELSE IF s1.o.np = 0 THEN (IF md = "real" /\ ~Repaired THEN Put(Ev(s1, "emptyPolyline"), "xy", <<>>) ELSE Fail(s1, "badCount"))   \* cannot be written again
   ELSE R_Points(L, md, Put(LoopGuard(L, md, Alloc(L, md, s1, s1.o.np), s1.o.np), "xy", <<>>), 1, s1.o.np)
 R_PolyElem(L, md, s0) == R_PolyLine(L, md, RdD(L, md, RdD(L, md, s0, "zmin"), "zmax"))
 RECURSIVE R_PolyElems(_, _, _, _, _)
@@ -742,7 +760,7 @@ R_PolyElems(L, md, s, k, n) ==
        ELSE R_PolyElems(L, md, Put(r, "elems", Append(s.o.elems, [zmin |-> r.o.zmin, zmax |-> r.o.zmax, xy |-> r.o.xy])), k + 1, n)
 R_Polygons(L, md, s0) ==
   LET s1 == RdI(L, md, s0, "npol")
-      s2 == IF s1.ok /\ md = "ideal" /\ s1.o.npol < 0 THEN Fail(s1, "badCount") ELSE s1
+      s2 == IF s1.ok /\ (md = "ideal" \/ Repaired) /\ s1.o.npol < 0 THEN Fail(s1, "badCount") ELSE s1
       s3 == R_PolyElems(L, md, Put(LoopGuard(L, md, s2, Gd(s2, "npol", 0)), "elems", <<>>), 1, IF s2.ok THEN s2.o.npol ELSE 0)
   IN Res(s3, [elems |-> s3.o.elems])
 W_PolyLine2D(o) == W_PolyLine(o.xy)
@@ -781,7 +799,7 @@ R_DbLine(L, md, s0) ==
   LET s1 == RdI(L, md, s0, "ndim")
       s2 == RdI(L, md, s1, "nbline")
       nb == Gd(s2, "nbline", 0)
-      s3 == R_Lines(L, md, Put(LoopGuard(L, md, Alloc(L, md, s2, nb), nb), "lines", <<>>), 1, nb)
+      s3 == R_Lines(L, md, Put(LoopGuard(L, md, Alloc(L, md, ChkRep(md, s2, nb >= 0), nb), nb), "lines", <<>>), 1, nb)
       db == R_DbPart(L, md, s3)
   IN Res(db, [ndim |-> db.o.ndim, lines |-> db.o.lines] @@ DbOf(db))
 
@@ -792,9 +810,9 @@ R_Arcs(L, md, s, k, n) ==
   ELSE LET r == RdVec(L, md, s, "vec", "d", 3) IN
        IF r.ok THEN \* nft.add((int) tab[0], (int) tab[1], tab[2]): any double is cast to a row / column index
                     LET badidx == \E q \in 1..2 : ~(r.o.vec[q] \in DOMAIN StrIntTab /\ StrIntTab[r.o.vec[q]] >= 0 /\ StrIntTab[r.o.vec[q]] <= 1000)
-                        r2 == IF badidx THEN (IF md = "real" THEN Ev(r, "badIndex") ELSE Fail(r, "badIndex")) ELSE r
+                        r2 == IF badidx THEN (IF md = "real" /\ ~Repaired THEN Ev(r, "badIndex") ELSE Fail(r, "badIndex")) ELSE r
                     IN IF r2.ok THEN R_Arcs(L, md, Put(r2, "arcs", Append(s.o.arcs, r.o.vec)), k + 1, n) ELSE r2
-       ELSE IF md = "real" THEN Ev(r, "useAfterClear") ELSE r          \* nft.add((int) tab[0], ...) on the cleared buffer
+       ELSE IF md = "real" /\ ~Repaired THEN Ev(r, "useAfterClear") ELSE r          \* nft.add((int) tab[0], ...) on the cleared buffer
 R_DbGraphO(L, md, s0) ==
   LET s1 == RdI(L, md, s0, "ndim")
       s2 == RdI(L, md, s1, "narcs")
@@ -804,7 +822,7 @@ R_DbGraphO(L, md, s0) ==
       \* the arcs must join nodes that exist: the real reader does not compare them with the number of samples
       big == db.ok /\ \E a \in DOMAIN db.o.arcs : \E q \in 1..2 :
                  db.o.arcs[a][q] \in DOMAIN StrIntTab /\ StrIntTab[db.o.arcs[a][q]] >= db.o.nech
-      d2 == IF big THEN (IF md = "real" THEN Ev(db, "badIndex") ELSE Fail(db, "badIndex")) ELSE db
+      d2 == IF big THEN (IF md = "real" /\ ~Repaired THEN Ev(db, "badIndex") ELSE Fail(db, "badIndex")) ELSE db
   IN Res(d2, [ndim |-> d2.o.ndim, arcs |-> d2.o.arcs] @@ DbOf(d2))
 
 LineSplits(n) == CASE n = 1 -> << <<1>> >> [] n = 2 -> << <<2>>, <<1, 1>> >> [] OTHER -> << <<3>>, <<1, 2>>, <<2, 1>> >>
@@ -833,9 +851,9 @@ DbGraphOBuild(st, v) == [ndim |-> NDimOf(v[2]), arcs |-> v[1], ncol |-> st.ncol,
 \* keeps its initial zeros (the line has been consumed)
 TableRead(L, md, s, f, n) ==
   IF ~s.ok THEN s
-  ELSE IF n < 0 THEN FailAt(s, IF md = "real" THEN "allocNegative" ELSE "badCount", f)
+  ELSE IF n < 0 THEN FailAt(s, IF md = "real" /\ ~Repaired THEN "allocNegative" ELSE "badCount", f)
   ELSE LET r == RdVec(L, md, s, f, "d", n) IN
-       IF r.ok \/ md = "ideal" THEN r
+       IF r.ok \/ md = "ideal" \/ Repaired THEN r
        ELSE IF "allocHuge" \in r.ev THEN r
        ELSE Put(Ev([r EXCEPT !.ok = TRUE, !.at = ""], "tableReadIgnored"), f, Cst(IF n <= 1000 THEN n ELSE 0, "0"))
 
@@ -850,18 +868,20 @@ HalfTab == ("0" :> <<"0", "0">>) @@ ("1" :> <<"0.5", "0.25">>) @@ ("-1" :> <<"-0
 ScalePsi(psi, r) == IF r # "0.5" THEN psi
                     ELSE [n \in DOMAIN psi |-> IF n = 1 THEN psi[n] ELSE IF n <= 3 /\ psi[n] \in DOMAIN HalfTab THEN HalfTab[psi[n]][n - 1] ELSE "scaled?"]
 
-W_AnamHermite(o) == W_AnamCont(o.cont) \o <<Rec(TRUE, o.rcoef), RecI(TRUE, Len(o.psi)), Vec(TRUE, o.psi)>>
+\* o.psi: the Hermite coefficients themselves (without the change of support r).  The first code wrote getPsiHns(), i.e.
+\* the coefficients multiplied by r^n; the repaired code writes them as they are
+W_AnamHermite(o) == W_AnamCont(o.cont) \o <<Rec(TRUE, o.rcoef), RecI(TRUE, Len(o.psi)),
+                                            Vec(TRUE, IF Repaired THEN o.psi ELSE ScalePsi(o.psi, o.rcoef))>>
 R_AnamHermite(L, md, s0) ==
   LET s1 == R_AnamCont(L, md, s0)
       s2 == RdD(L, md, s1, "rcoef")
       s3 == RdI(L, md, s2, "nbpoly")
       n  == Gd(s3, "nbpoly", 0)
       \* a polynomial expansion without any coefficient: setPsiHns / calculateMeanAndVariance index psi[0]
-      sh == IF s3.ok /\ n <= 0 THEN (IF md = "real" THEN Ev(s3, "emptyHermite") ELSE Fail(s3, "badCount")) ELSE s3
+      sh == IF s3.ok /\ n <= 0 THEN (IF md = "real" /\ ~Repaired THEN Ev(s3, "emptyHermite") ELSE Fail(s3, "badCount")) ELSE s3
       s4 == TableRead(L, md, Alloc(L, md, sh, n), "psi", n)
-  IN \* setPsiHns(hermite) stores the values read as RAW coefficients, setRCoef(r) then makes getPsiHns return them times
-     \* r^n: but the writer had written getPsiHns(), i.e. coefficients already multiplied by r^n
-     Res(s4, [cont |-> s4.o.cont, rcoef |-> s4.o.rcoef, psi |-> IF md = "real" THEN ScalePsi(s4.o.psi, s4.o.rcoef) ELSE s4.o.psi])
+  IN \* setPsiHns(hermite) stores the values read as the coefficients, setRCoef(r) stores r apart
+     Res(s4, [cont |-> s4.o.cont, rcoef |-> s4.o.rcoef, psi |-> s4.o.psi])
 
 W_AnamEmpirical(o) == W_AnamCont(o.cont) \o <<RecI(TRUE, Len(o.z)), Rec(TRUE, o.sigma2e), Vec(TRUE, o.z), Vec(TRUE, o.y)>>
 R_AnamEmpirical(L, md, s0) ==
@@ -869,7 +889,7 @@ R_AnamEmpirical(L, md, s0) ==
       s2 == RdI(L, md, s1, "ndisc")
       s3 == RdD(L, md, s2, "sigma2e")
       n  == Gd(s3, "ndisc", 0)
-      s4 == TableRead(L, md, Alloc(L, md, s3, n), "z", n)
+      s4 == TableRead(L, md, Alloc(L, md, ChkRep(md, s3, n >= 0), n), "z", n)
       s5 == TableRead(L, md, s4, "y", n)
   IN Res(s5, [cont |-> s5.o.cont, sigma2e |-> s5.o.sigma2e, z |-> s5.o.z, y |-> s5.o.y])
 
@@ -880,7 +900,8 @@ R_AnamDiscreteIR(L, md, s0) ==
       s3 == RdI(L, md, s2, "nelem")
       nc == Gd(s3, "ncut", 0)
       ns == BigCount(Gd(s3, "nclass", 0), Gd(s3, "nelem", 0))
-      sa == IF s3.ok /\ md = "ideal" /\ (nc < 1 \/ s3.o.nelem < 1 \/ s3.o.nclass - 1 # nc) THEN Fail(s3, "badCount") ELSE s3
+      sa == IF s3.ok /\ md = "ideal" /\ (nc < 1 \/ s3.o.nelem < 1 \/ s3.o.nclass - 1 # nc) THEN Fail(s3, "badCount")
+            ELSE ChkRep(md, s3, nc >= 0 /\ Gd(s3, "nelem", 0) >= 0 /\ Gd(s3, "nclass", 0) - 1 = nc)
       s4 == TableRead(L, md, Alloc(L, md, sa, nc), "zcut", nc)
       s5 == TableRead(L, md, Alloc(L, md, s4, ns), "stats", IF ns = IMAX THEN 100001 ELSE ns)
       s6 == RdD(L, md, s5, "rcoef")
@@ -894,8 +915,7 @@ ContPatterns == << <<"0", "1", "-1", "1", "0", "1", "-1", "1", "0", "1">>,
                    <<"-1", "1e+20", "-1e+300", "1e+300", "1e-300", "1.23456789012345", "-1.23456789012345", "2", "1.23456789012345", "1e-300">> >>
 AnamHermiteStructs == <<[n |-> 1], [n |-> 2], [n |-> 3]>>
 AnamHermiteDoms(st) == <<ContPatterns, <<"1", "0.5">> >> \o Cst(st.n, FVs)
-\* psi: the effective coefficients psi_n r^n (what getPsiHns returns and what is written); mean and variance (positions
-\* 9, 10 of the common part) are functions of the coefficients: left open ("*")
+\* mean and variance (positions 9, 10 of the common part) are functions of the coefficients: left open ("*")
 AnamHermiteBuild(st, v) == [cont |-> SubSeq(v[1], 1, 8) \o <<"*", "*">>, rcoef |-> v[2], psi |-> SubSeq(v, 3, 2 + st.n)]
 AnamEmpiricalStructs == <<[n |-> 1], [n |-> 2], [n |-> 3]>>
 AnamEmpiricalDoms(st) == <<ContPatterns, <<NA, "0", "0.5", "1.23456789012345">> >> \o Cst(2 * st.n, FVs)
@@ -915,14 +935,23 @@ R_MeshEStandard(L, md, s0) ==
       s3 == RdI(L, md, s2, "npm")
       s4 == RdI(L, md, s3, "nmeshes")
   IN IF ~s4.ok THEN ResFail(s4) ELSE
-  LET sa == IF md = "ideal" /\ (s4.o.ndim < 1 \/ s4.o.napices < 0 \/ s4.o.npm < 0 \/ s4.o.nmeshes < 0) THEN Fail(s4, "badCount") ELSE s4
+  LET sa == IF (md = "ideal" \/ Repaired) /\ (s4.o.ndim < 1 \/ s4.o.napices < 0 \/ s4.o.npm - 1 # s4.o.ndim \/ s4.o.nmeshes < 0)
+            THEN Fail(s4, "badCount") ELSE s4
       na == BigCount(s4.o.napices, s4.o.ndim)
       nm == BigCount(s4.o.nmeshes, s4.o.npm)
       s5 == RdVec(L, md, sa, "apices", "d", IF na = IMAX THEN 100001 ELSE na)
       s6 == RdVec(L, md, s5, "meshes", "i", IF nm = IMAX THEN 100001 ELSE nm)
-  IN IF md = "ideal" THEN Res(s6, [ndim |-> s6.o.ndim, napices |-> s6.o.napices, npm |-> s6.o.npm, nmeshes |-> s6.o.nmeshes, apices |-> s6.o.apices, meshes |-> s6.o.meshes])
+      okidx == ~s6.ok \/ \A k \in DOMAIN s6.o.meshes : s6.o.meshes[k] >= 0 /\ s6.o.meshes[k] < s6.o.napices
+  IN IF md = "ideal" THEN Res(IF okidx THEN s6 ELSE Fail(s6, "badIndex"),
+                             [ndim |-> s6.o.ndim, napices |-> s6.o.napices, npm |-> s6.o.npm, nmeshes |-> s6.o.nmeshes, apices |-> s6.o.apices, meshes |-> s6.o.meshes])
      \* the dimension read stays in a local variable (AMesh::_nDim is not set): the object reloaded is in dimension 0, with
      \* one apex per mesh and no coordinate
+     ELSE IF Repaired
+     THEN \* repaired: dimension set, consistent counts, mesh indices within the apices
+          LET bad == s6.ok /\ (s6.o.ndim <= 0 \/ s6.o.napices < 0 \/ s6.o.nmeshes < 0 \/ s6.o.npm - 1 # s6.o.ndim
+                               \/ \E k \in DOMAIN s6.o.meshes : s6.o.meshes[k] < 0 \/ s6.o.meshes[k] >= s6.o.napices)
+              s7 == IF bad THEN Fail(s6, "badCount") ELSE s6
+          IN Res(s7, [ndim |-> s7.o.ndim, napices |-> s7.o.napices, npm |-> s7.o.npm, nmeshes |-> s7.o.nmeshes, apices |-> s7.o.apices, meshes |-> s7.o.meshes])
      ELSE Res(s6, [ndim |-> 0, napices |-> s6.o.napices, npm |-> 1, nmeshes |-> Len(s6.o.meshes), apices |-> <<>>, meshes |-> <<-1>>])
 
 \* structures: simplices of dimension ndim on a few apices (meshes given by the ranks of their apices)
@@ -954,7 +983,9 @@ R_MeshETurbo(L, md, s0) ==
       \* "(void) initFromGridByMatrix(...)": a grid that cannot be built (no node along an axis, absurd counts) is not noticed
       badg == s5.ok /\ (nd < 1 \/ nd > 3 \/ (\E d \in DOMAIN s5.o.nx : s5.o.nx[d] < 2 \/ s5.o.nx[d] > 10000)
                               \/ (\E d \in DOMAIN s5.o.dx : s5.o.dx[d] \in NegToks))      \* Grid::resetFromVector refuses dx < 0
-      sE == IF sD.ok /\ badg THEN (IF md = "real" THEN Ev(sD, "badGrid") ELSE Fail(sD, "badCount")) ELSE sD
+      \* repaired: dimension > 0, every count > 0, and the result of initFromGridByMatrix (negative mesh refused) is used
+      refused == s5.ok /\ (nd < 1 \/ (\E d \in DOMAIN s5.o.nx : s5.o.nx[d] <= 0) \/ (\E d \in DOMAIN s5.o.dx : s5.o.dx[d] \in NegToks))
+      sE == IF sD.ok /\ badg THEN (IF md = "ideal" \/ (Repaired /\ refused) THEN Fail(sD, "badCount") ELSE Ev(sD, "badGrid")) ELSE sD
   IN Res(sE, [ndim |-> nd, nx |-> sE.o.nx, dx |-> sE.o.dx, x0 |-> sE.o.x0, rotmat |-> sE.o.rotmat, polar |-> sE.o.polar, mode |-> sE.o.mode,
               nmesh |-> sE.o.nmesh, ngrid |-> sE.o.ngrid])
 TurboNx == << <<2>>, <<3>>, <<2, 2>>, <<3, 2>>, <<2, 2, 2>> >>
@@ -1022,7 +1053,7 @@ R_RulePart(L, md, s0) ==
       s3 == RdI(L, md, s2, "nbnode")
       n  == Gd(s3, "nbnode", 0)
       sa == IF s3.ok /\ md = "ideal" /\ (n < 1 \/ s3.o.mode \notin {0, 1, 2}) THEN Fail(s3, "badCount") ELSE s3
-      sb == IF sa.ok /\ md = "real" /\ sa.o.mode \notin {0, 1, 2} THEN Ev(sa, "badEnum") ELSE sa
+      sb == ChkRep(md, IF sa.ok /\ md = "real" /\ sa.o.mode \notin {0, 1, 2} THEN Ev(sa, "badEnum") ELSE sa, n >= 1)
       s4 == RdMany(L, md, Put(Alloc(L, md, sb, BigCount(6, n)), "flat", <<>>), "flat", "i", IF BigCount(6, n) = IMAX THEN 100001 ELSE 6 * n)
   IN IF ~s4.ok THEN s4 ELSE
      LET nodes == [k \in 1..n |-> SubSeq(s4.o.flat, 6 * k - 5, 6 * k)]
@@ -1110,6 +1141,8 @@ R_CSV(L, md) ==
   IN IF md = "ideal"
      THEN IF ncol >= 1 /\ ~ragged THEN [ok |-> TRUE, ev |-> {}, at |-> "", o |-> [names |-> names, rows |-> Recut(tab, ncol)]]
           ELSE [ok |-> FALSE, ev |-> {"raggedLine"}, at |-> "rows", o |-> <<>>]
+     ELSE IF Repaired /\ ncol > 0 /\ (\E k \in DOMAIN lines : Len(lines[k]) < ncol)
+     THEN [ok |-> FALSE, ev |-> {"raggedLine"}, at |-> "rows", o |-> <<>>]       \* repaired: a line with fewer values is refused
      ELSE [ok |-> TRUE, at |-> "",
            \* a number of columns that differs from the number of names makes Db::_loadData throw; a name starting with '#'
            \* gives a Db that cannot be read back from its own neutral file
@@ -1137,7 +1170,7 @@ ExchangeFormats == {"GridZycor", "GridIfpEn"}
 
 NeighImageStructs == NeighStructs
 Tag(c) == CASE c = "Polygons" -> <<"Polygon">>
-            [] c = "FracEnviron" -> <<"Fracture", "Environ">>
+            [] c = "FracEnviron" -> IF Repaired THEN <<"FracEnviron">> ELSE <<"Fracture", "Environ">>
             [] c = "FracFamily" -> <<"Family">>
             [] OTHER -> <<c>>
 
